@@ -18,14 +18,29 @@
  *   strchr    : env_split.h deterministic loop-free model (uninterpreted position). */
 
 /*@unit
-name: tok_eval
-define: U_TOKEVAL
+name: tok_eval.ws
+define: U_TOKEVAL, U_SEP_NULL
 src: tok.c
 enforce: spif_tok_eval
 replace: spif_str_get_len, spif_str_new_from_buff, spif_str_clear, spif_str_append_char, spif_str_trim, vlist_new, vlist_del, vlist_append
-backend: kissat,cadical
+backend: cadical
 objbits: 10
 loops: 1
+timeout: 1200
+mem: 16
+funcs: spif_str_get_len, spif_str_new_from_buff, spif_str_clear, spif_str_append_char, spif_str_trim
+*/
+/*@unit
+name: tok_eval.sep
+define: U_TOKEVAL, U_SEP_SET
+src: tok.c
+enforce: spif_tok_eval
+replace: spif_str_get_len, spif_str_new_from_buff, spif_str_clear, spif_str_append_char, spif_str_trim, vlist_new, vlist_del, vlist_append
+backend: cadical
+objbits: 10
+loops: 1
+timeout: 1200
+mem: 16
 funcs: spif_str_get_len, spif_str_new_from_buff, spif_str_clear, spif_str_append_char, spif_str_trim
 */
 #define VERIF_OWN_STRCHR
@@ -101,13 +116,18 @@ __CPROVER_ensures(STRV(self) && self->len <= __CPROVER_old(self->len))
 
 #define TOK_SRC_OK(t) (__CPROVER_is_fresh((t)->src, VSTR_SZ) && VCSTR_FRESH((t)->src->s, vg_n1) && \
                        (t)->src->len == (spif_stridx_t) vg_n1 && (t)->src->size == (spif_stridx_t) vg_n1 + 1)
-#define TOK_SEP_OK(t) ((t)->sep == NULL || (__CPROVER_is_fresh((t)->sep, VSTR_SZ) && VCSTR_FRESH((t)->sep->s, vg_n2)))
+/* two behaviours (their union is every tok object): no separator string (whitespace) / a separator string */
+#ifdef U_SEP_NULL
+# define TOK_SEP_OK(t) ((t)->sep == NULL)
+#else
+# define TOK_SEP_OK(t) (__CPROVER_is_fresh((t)->sep, VSTR_SZ) && VCSTR_FRESH((t)->sep->s, vg_n2))
+#endif
 
 spif_bool_t spif_tok_eval(spif_tok_t self)
 __CPROVER_requires(__CPROVER_is_fresh(self, sizeof(struct spif_tok_t_struct)))
 __CPROVER_requires(TOK_SRC_OK(self))
 __CPROVER_requires(TOK_SEP_OK(self))
-__CPROVER_assigns(self->tokens, vg_sp_cnt, vg_n3, vg_sp_c, vg_sp_q, vg_sp_d)
+__CPROVER_assigns(self->tokens, vg_sp_cnt, vg_n3, vg_sp_q, vg_exit)
 __CPROVER_ensures(__CPROVER_return_value == TRUE && self->tokens != NULL)
 __CPROVER_ensures(vg_sp_cnt <= vg_n1)
 ;
